@@ -16,7 +16,7 @@ from harness import sched_prop
 PROP = 'C13'
 LEAN_TARGETS = ['VivProps.C13']
 DRIVER = 'Sched'
-REQUIRED_THEOREMS = ['end_safe_at_any_point', 'engine_requests_disciplined', 'stop_idle', 'stop_inflight',
+REQUIRED_THEOREMS = ['engine_requests_are_commands', 'end_safe_at_any_point', 'engine_requests_disciplined', 'stop_idle', 'stop_inflight',
                      'stop_twice', 'send_while_pending_rejected', 'accepted_is_disciplined',
                      'get_after_stop_returns_the_pending_result', 'fresh_idle', 'send_idle', 'get_inflight']
 ANCHORS = sched_prop.ENGINE_ANCHORS + [
